@@ -203,6 +203,19 @@ def grid_histories():
     ops += [dict(op="delete_bucket", bucket="abc"), dict(op="get", bucket="abcdef", key="zz"), dict(op="delete_bucket", bucket="abcdef"),
             dict(op="get", bucket="abcdef-x", key="zz"), dict(op="delete_bucket", bucket="bkt-a"), dict(op="get", bucket="bkt-b", key="zz")]
     hists.append(ops)
+    # copies must not alias across buckets: a second copy onto an existing destination, and a repeated copy, leave the first copy's source alone
+    ops = [dict(op="create_bucket", bucket=bk) for bk in BUCKETS]
+    ops += [dict(op="put", bucket="bkt-a", key="dir/x", body="T9950@bkt-a", metadata={"owner": "bkt-a"}), dict(op="put", bucket="bkt-c", key="z", body="T9951@bkt-c"),
+            dict(op="copy", bucket="bkt-b", key="y", src_bucket="bkt-a", src_key="dir/x"), dict(op="copy", bucket="bkt-b", key="y", src_bucket="bkt-c", src_key="z"),
+            dict(op="get", bucket="bkt-a", key="dir/x"), dict(op="copy", bucket="bkt-b", key="y2", src_bucket="bkt-a", src_key="dir/x"),
+            dict(op="copy", bucket="bkt-b", key="y2", src_bucket="bkt-a", src_key="dir/x"), dict(op="get", bucket="bkt-a", key="dir/x"),
+            dict(op="put", bucket="bkt-b", key="y2", body="T9952@bkt-b"), dict(op="get", bucket="bkt-a", key="dir/x"), dict(op="get", bucket="bkt-b", key="y2"),
+            # a copy with a metadata directive and metadata of its own stays in its destination bucket
+            dict(op="copy", bucket="bkt-b", key="y3", src_bucket="bkt-a", src_key="dir/x", metadata_directive="REPLACE", metadata={"new": "meta"}),
+            dict(op="head", bucket="bkt-a", key="dir/x"),
+            dict(op="copy", bucket="bkt-c", key="y4", src_bucket="bkt-a", src_key="dir/x", metadata_directive="COPY", metadata={"other": "meta"}),
+            dict(op="get", bucket="bkt-a", key="dir/x")]
+    hists.append(ops)
     return hists
 
 
@@ -358,6 +371,63 @@ def run_histories(ctx):
     ctx.sample(dict(op="history", first_ops=hists[0][9:13], outs=res[0].get("outs", [])[9:13], diffs=res[0].get("diffs", [])[9:13]))
 
 
+def run_overlaps(ctx):
+    """writes that overlap in time (the first one's body arrives slowly while the others run to completion): each is confined to its own
+    destination - afterwards every destination holds exactly its own writer's bytes and nothing else in the tree has changed"""
+    rng = ctx.rng
+    layouts = [[("alpha", "report.csv"), ("beta", "report.csv")], [("alpha", "dir/report.csv"), ("beta", "other/report.csv")],
+               [("alpha", "a/report.csv"), ("alpha", "b/report.csv")], [("alpha", "x"), ("beta", "x"), ("gamma", "x")],
+               [("alpha", "report.csv"), ("alphabet", "report.csv")], [("beta", "k.bin"), ("alpha", "k.bin")]]
+    cases, meta = [], []
+    for li, lay in enumerate(layouts):
+        for rd in range(2 if ctx.quick else 12):
+            buckets = sorted({b_ for b_, _ in lay})
+            before = [dict(op="create_bucket", bucket=h(b_)) for b_ in buckets]
+            before += [dict(op="put", bucket=h(b_), key=h("bystander"), body=h(b"bystander of " + b_.encode())) for b_ in buckets]
+            writers, bodies = [], []
+            for wi, (b_, k_) in enumerate(lay):
+                body = bytes([97 + wi]) * (9000 if wi == 0 else rng.choice([10, 3000, 5000]))
+                # the first writer is slow (many polls between short frames), the others are not
+                writers.append(dict(bucket=h(b_), key=h(k_), body=h(body), frame=(256 if wi == 0 else 4096), yields=((8 + 10 * rd) if wi == 0 else rng.below(2))))
+                bodies.append(body)
+            after = [dict(op="get", bucket=h(b_), key=h(k_)) for b_, k_ in lay] + [dict(op="get", bucket=h(b_), key=h("bystander")) for b_ in buckets]
+            cases.append(dict(before=before, experiment=dict(kind="concurrent", writers=writers), after=after, threads=(1 if rd % 2 == 0 else 4)))
+            meta.append((lay, bodies, buckets))
+    res = vlib.run_impl("c19", cases)
+    for (lay, bodies, buckets), r in zip(meta, res):
+        ctx.cov["evaluations"] += 1
+        ctx.count("overlap.writers_%d" % len(lay))
+        show = dict(op="overlapping-writes", destinations=lay, results=r.get("experiment"))
+        if "panic" in r:
+            ctx.violation(dict(stage="overlap", kind="harness panic", panic=r["panic"][:200], case=show)); continue
+        reads = r["outs"][-(len(lay) + len(buckets)):]
+        problems = []
+        for (b_, k_), body, res_, g in zip(lay, bodies, r["experiment"], reads[:len(lay)]):
+            content = bytes.fromhex(g[3:].split("|")[0]) if g.startswith("ok:") else None
+            if res_ == "ok" and content != body:
+                problems.append("%s/%s was written successfully but holds %s" % (b_, k_, "nothing" if content is None else "%d bytes beginning %r" % (len(content), content[:6])))
+            if res_ != "ok" and content is not None:
+                problems.append("%s/%s: the write failed (%s) and the object exists" % (b_, k_, res_))
+            if res_ != "ok":
+                problems.append("the write to %s/%s failed (%s) although nothing else addressed it" % (b_, k_, res_))
+        for b_, g in zip(buckets, reads[len(lay):]):
+            if not g.startswith("ok:" + (b"bystander of " + b_.encode()).hex()):
+                problems.append("the bystander object of %s changed" % b_)
+        want = sorted(["%s/%s" % (b_, k_) for b_, k_ in lay] + ["%s/bystander" % b_ for b_ in buckets])
+        files = sorted(t.split("=")[0][5:] for t in r["tree"] if "=file:" in t and t.startswith("root/") and not t[5:].startswith("."))
+        if not any(t.startswith("outside/secret.txt=file:8:") for t in r["tree"]):
+            problems.append("the sentinel outside the root changed")
+        if files != want:
+            problems.append("the tree holds %s" % files)
+        if r["tmp"]:
+            problems.append("temporary files remain: %s" % r["tmp"])
+        if problems:
+            ctx.violation(dict(stage="overlap", kind="overlapping writes to different destinations interfered: " + "; ".join(problems), case=show))
+        else:
+            ctx.cov["traces_validated_against_impl"] += 1
+            ctx.nontrivial(("overlap", tuple(lay), tuple(r["experiment"])))
+
+
 def run(ctx):
     ctx.cov["rule"] = ("a case is a (bucket, key) pair whose resolution is compared, or one changed path of one operation of a history "
                        "checked against the operation's footprint; distinct = distinct (input, output) pairs / histories")
@@ -367,5 +437,6 @@ def run(ctx):
     try:
         run_paths(ctx)
         run_histories(ctx)
+        run_overlaps(ctx)
     except (vlib.ModelError, vlib.HarnessError) as e:
         ctx.violation(dict(stage="harness", kind=type(e).__name__, error=str(e)[:3000]), has_input=False)
